@@ -39,7 +39,41 @@ def _is_env_alias(e: ast.AST, f: Func | None = None, depth: int = 0) -> bool:
                   and not isinstance(f.module.parents.get(n), ast.Assign)]
         if ds and not others:
             al = lambda x: _is_env_alias(x, f, depth + 1)          # noqa: E731
-            return all(al(d.value) or _default_idiom(d.value, al) or (
+
+            def through_helper(v: ast.AST) -> bool:
+                """v = self._own_env(env) / _own_env(env): a helper of the class / module every return of which is its parameter or
+                the default idiom over it, applied to the env object."""
+                if not (isinstance(v, ast.Call) and len(v.args) == 1 and not v.keywords and al(v.args[0])):
+                    return False
+                hd = None
+                if isinstance(v.func, ast.Name):
+                    hd = f.module.defs.get(v.func.id)
+                elif isinstance(v.func, ast.Attribute) and isinstance(v.func.value, ast.Name) and f.cls:
+                    cd = next((x for x in ast.walk(f.module.tree) if isinstance(x, ast.ClassDef) and x.name == f.cls.split("@")[0]), None)
+                    hd = next((x for x in (cd.body if cd else []) if isinstance(x, ast.FunctionDef) and x.name == v.func.attr), None)
+                if not isinstance(hd, ast.FunctionDef):
+                    return False
+                ps = [a.arg for a in hd.args.args if a.arg not in ("self", "cls")]
+                if len(ps) != 1:
+                    return False
+                pal = lambda x: isinstance(x, ast.Name) and x.id == ps[0]          # noqa: E731
+                rets = [x for x in own_nodes(hd) if isinstance(x, ast.Return)]
+                stores = [x for x in own_nodes(hd) if isinstance(x, ast.Name) and isinstance(x.ctx, ast.Store)]
+                if not rets:
+                    return False
+                for rt in rets:
+                    if rt.value is None:
+                        return False
+                    if pal(rt.value) or _default_idiom(rt.value, pal):
+                        continue
+                    # if env is None: return {}   ...   return env
+                    par = f.module.parents.get(rt)
+                    if isinstance(rt.value, ast.Dict) and not rt.value.keys and isinstance(par, ast.If) and U(par.test) == f"{ps[0]} is None":
+                        continue
+                    return False
+                return not [x for x in stores if x.id == ps[0] and not (isinstance(f.module.parents.get(x), ast.Assign)
+                            and isinstance(f.module.parents.get(x).value, ast.Dict) and not f.module.parents.get(x).value.keys)]
+            return all(al(d.value) or _default_idiom(d.value, al) or through_helper(d.value) or (
                 isinstance(d.value, ast.Dict) and not d.value.keys and isinstance(f.module.parents.get(d), ast.If)
                 and U(f.module.parents.get(d).test).endswith(" is None")) for d in ds)
     return False
